@@ -87,6 +87,11 @@ def __setitem__(self, i, v):
     if "order_label" not in v.metadata:
         v.add_metadata({"order_label": self.order[i]})
 '''],
+    # (iterating the cadence and iterating its list of frames visit the same frames in the same order)
+    OC + 'by_label': ['''
+def by_label(self, order_label="A"):
+    return Cadence(frame_list=[frame for frame in self.frames if frame.metadata["order_label"] == order_label])
+'''],
 }
 FIRST_PROPS = ('fch1', 'ascending', 'fmin', 'fmax', 'fmid', 'df', 'dt', 'fchans')
 NO_INLINE = (CD + '_check', 'frame.Frame.add_metadata', CD + '__init__', CD + '__len__', CD + '__iter__', CD + '__getitem__')
